@@ -95,6 +95,7 @@ class Runner:
         self.nproc = nproc
         self.tmp = tmp
         self.env = asan_env() if variant == "asan" else dict(os.environ)
+        self.env["C37_ASAN_LIB"] = os.environ.get("C37_ASAN_LIB", "")
         self.nspawn = 0
 
     def _spawn(self, docs):
@@ -267,7 +268,7 @@ def _build_corpus(ctx):
 
 def run(ctx):
     mj.load()
-    lib_asan = build.ensure("asan")
+    os.environ["C37_ASAN_LIB"] = D.ensure_asan_lib()
     S, sc = G.schema()
     tmp = R.tmpdir()
     corpus, nocorpus = build_corpus(ctx)
